@@ -308,8 +308,15 @@ impl RelativeEq for IntOfLogPoly4 {
 
 // Hide ugly taylor expansion stuff
 mod taylor {
+    #[cfg(feature = "verif-hooks")]
+    thread_local! {
+        pub static VERIF_BRANCH_COUNTS: std::cell::Cell<(u64, u64)> = std::cell::Cell::new((0, 0));
+    }
+
     #[inline]
     fn exp_5_tail_anal(x: f64) -> f64 {
+        #[cfg(feature = "verif-hooks")]
+        VERIF_BRANCH_COUNTS.with(|c| c.set((c.get().0, c.get().1 + 1)));
         let x = x.recip();
 
         let c0: f64 = 0.0;
@@ -331,6 +338,8 @@ mod taylor {
 
     #[inline]
     fn exp_5_tail_taylor(x: f64) -> f64 {
+        #[cfg(feature = "verif-hooks")]
+        VERIF_BRANCH_COUNTS.with(|c| c.set((c.get().0 + 1, c.get().1)));
         // (((C0+C1x) + (C2+C3x)x2) + ((C4+C5x) + (C6+C7x)x2)x4) + (((C8+C9x) + (C10+C11x)x2) + ((C12+C13x) + (C14+C15x)x2)x4)x8
         let c0: f64 = 1.0 / 120.0;
         let c1: f64 = 1.0 / 720.0;
@@ -426,6 +435,13 @@ mod taylor {
         assert_approx_eq!(exp_5_taylor(1.5), 1.0963169756452968e-2, diff);
         assert_approx_eq!(exp_5_taylor(2.0), 1.2158003091582829e-2, diff);
     }
+}
+
+/// (series-branch calls, closed-form-branch calls) of the exponential tail
+/// helper on the current thread, for external runtime monitors.
+#[cfg(feature = "verif-hooks")]
+pub fn verif_exp5_branch_counts() -> (u64, u64) {
+    taylor::VERIF_BRANCH_COUNTS.with(|c| c.get())
 }
 
 impl Evaluate for IntOfLogPoly4 {
